@@ -10,7 +10,7 @@ from ..q import FA, call_name, guard_facts, ifs_on, walk_no_nested
 from ..resolve import resolver
 from ..rules import sign
 
-TECHNIQUE = "R-SIGN: Jacobian-direction typing by dataflow (every tuple result of a directional map is tagged forward / inverse and must enter additive expressions with + / -, through accumulators and callee parameters), no-drop rule on density-returning functions, R-SIB delegation agreement of the array-level FlowModel wrappers, override-uses-its-parameters rule; R-PAIR must-pair rule for cache invalidation; registered-container rule for torch sub-modules"
+TECHNIQUE = "R-SIGN: Jacobian-direction typing by dataflow (every tuple result of a directional map is tagged forward / inverse and must enter additive expressions with + / -, through accumulators and callee parameters), no-drop rule on density-returning functions, R-SIB delegation agreement of the array-level FlowModel wrappers, override-uses-its-parameters rule; R-PAIR must-pair rule for cache invalidation; registered-container rule for torch sub-modules; R-PAIR scan over the proposal modules"
 
 MODS = ("nessai.flows.base", "nessai.flowmodel.base", "nessai.flowmodel.importance", "nessai.proposal.flowproposal", "nessai.proposal.augmented", "nessai.proposal.importance", "nessai.samplers.importancesampler", "nessai.experimental.proposal.clustering", "nessai.experimental.flowmodel.clustering", "nessai.gw.proposal", "nessai.flows.realnvp", "nessai.flows.maf", "nessai.flows.nsf")
 
@@ -360,7 +360,7 @@ def _narrow_dtype_uses(tree):
 
 
 CLAIM = {
-    "text": "Decides the sign-and-drop discipline that makes generated and evaluated densities agree: every Jacobian returned by a directional map (forward / rescale / to_prime / _transform vs. inverse / inverse_rescale / from_prime) in the flow, flow-model and proposal modules is tagged and followed through accumulators, reshapes and callee parameters; a data->latent Jacobian must enter every additive expression with +, a latent->data Jacobian with -, and in density-returning functions none may be dropped (finiteness-mask-only uses are a reviewed list); compute_log_Q's Jacobian parameter is tagged from all its call sites; the array-level FlowModel wrappers delegate to the same-named flow method on the caller's array, and in the supplied-latent branch the density function is alt_dist.log_prob iff alt_dist is given and is applied to the same z that is inverted; NFlow's three density definitions match the documented forms; overrides of the FlowModel density methods must read the parameters the result depends on. Recorded findings: a diagnostic plot adds an inverse Jacobian, and the clustering flow model ignores supplied latent points. The density path keeps the configured precision: no hard-coded float32 / float16 / .float() / .half() in the 36 functions reachable from the array-level density interface (R-DTYPE). Data-space / latent-space typing of every point handed to log_prob / forward / inverse / base_distribution_log_prob over 241 functions, re-bindings followed in statement order (R-SPACE; found and repaired: ClusteringFlowModel.forward_and_log_prob evaluated the density at the latent point). Re-initialising a cached linear transform (LULinear._initialize) is paired with cache.invalidate() on the same module in the same block (C08.7). Every container of sub-modules stored on a torch module of the package is an nn.ModuleList / ModuleDict / Sequential, so eval() reaches dropout / batch-norm layers and the density evaluated equals the density sampled (C08.8).",
+    "text": "Decides the sign-and-drop discipline that makes generated and evaluated densities agree: every Jacobian returned by a directional map (forward / rescale / to_prime / _transform vs. inverse / inverse_rescale / from_prime) in the flow, flow-model and proposal modules is tagged and followed through accumulators, reshapes and callee parameters; a data->latent Jacobian must enter every additive expression with +, a latent->data Jacobian with -, and in density-returning functions none may be dropped (finiteness-mask-only uses are a reviewed list); compute_log_Q's Jacobian parameter is tagged from all its call sites; the array-level FlowModel wrappers delegate to the same-named flow method on the caller's array, and in the supplied-latent branch the density function is alt_dist.log_prob iff alt_dist is given and is applied to the same z that is inverted; NFlow's three density definitions match the documented forms; overrides of the FlowModel density methods must read the parameters the result depends on. Recorded findings: a diagnostic plot adds an inverse Jacobian, and the clustering flow model ignores supplied latent points. The density path keeps the configured precision: no hard-coded float32 / float16 / .float() / .half() in the 36 functions reachable from the array-level density interface (R-DTYPE). Data-space / latent-space typing of every point handed to log_prob / forward / inverse / base_distribution_log_prob over 241 functions, re-bindings followed in statement order (R-SPACE; found and repaired: ClusteringFlowModel.forward_and_log_prob evaluated the density at the latent point). Re-initialising a cached linear transform (LULinear._initialize) is paired with cache.invalidate() on the same module in the same block (C08.7). Every container of sub-modules stored on a torch module of the package is an nn.ModuleList / ModuleDict / Sequential, so eval() reaches dropout / batch-norm layers and the density evaluated equals the density sampled (C08.8). Parallel arrays (points, latent points, densities, Jacobians, density rows) are masked, sliced and concatenated together (C08.9).",
     "note": "Decides signs and completeness of Jacobian bookkeeping, not invertibility or normalisation of the transforms, float tolerances or trained-weight behaviour.",
 }
 
